@@ -12,6 +12,8 @@ const RULES: &[&str] = &[
     "/ads/*/banner^", "||track.example.com^*/pixel", "/re[0-9]+x/", "|https://cdn.example.net/*.js|", "@@/ads/*/banner^$domain=ok.example",
     "/promo^$important", "||frame.example.com^$csp=script-src 'none'", "||frame.example.com^$csp=img-src *,tag=t1", "/tagged^x$tag=t1",
     "@@||g.example.com^$generichide", "||r.example.com^*.gif$redirect=1x1.gif", "/q?*utm=$removeparam=utm", "-banner-*-300x", "/a*b*c*d",
+    // regex rules pinned on exactly one side: a recompiled regex must keep the anchor on the same side
+    "/promo2/*.gif|", "|https://one.example/*/collect", "/lft*.png|$image", "|https://lft.example/*x$script",
     "example.com##.ad", "sub.example.com#@#.ad", "##.generic", "example.com##+js(sc, 1)", "g.example.com##.g", "##div[ad]",
 ];
 
@@ -26,6 +28,10 @@ pub fn queries() -> Vec<(String, String, String, String)> {
         ("https://r.example.com/a.gif", "https://y.com/", "image"), ("https://x.com/q?a=1&utm=2", "https://y.com/", "xhr"),
         ("https://x.com/-banner-big-300x", "https://y.com/", "image"), ("https://x.com/a1b2c3d", "https://y.com/", "other"),
         ("https://x.com/nothing", "https://y.com/", "script"),
+        ("https://site.test/promo2/summer/a.gif", "https://y.com/", "image"), ("https://site.test/promo2/summer/a.gif?x", "https://y.com/", "image"),
+        ("https://one.example/v1/collect", "https://y.com/", "xhr"), ("https://two.example/?u=https://one.example/v1/collect", "https://y.com/", "xhr"),
+        ("https://x.com/lft/a.png", "https://y.com/", "image"), ("https://x.com/lft/a.png#f", "https://y.com/", "image"),
+        ("https://lft.example/ax", "https://y.com/", "script"), ("https://x.com/https://lft.example/ax", "https://y.com/", "script"),
     ] {
         v.push(("net".to_string(), u.to_string(), s.to_string(), t.to_string()));
     }
